@@ -157,11 +157,17 @@ def run(ctx):
     ctx.check({"timeout", "none"} <= nv, "R15.3", NEW, "new subsystem returns 'timeout' and 'none'",
               msg=f"new wait_until can only return trigger types {sorted(nv)}", key="new result literals", node=fn2, rel="decorator.py")
     # timeout result is tied to the timeout decorator
-    f4 = program.func("decorator.py::WaitUntilDecoratorManager.wait_until")
-    ok = any(isinstance(n, ast.Compare) and "timeout_decorator" in norm(n) and "data.trigger" in norm(n) for n in body_walk(f4))
-    ctx.check(ok, "R15.3", "decorator.py::WaitUntilDecoratorManager.wait_until", "timeout result iff the dispatching trigger is the timeout decorator",
-              msg="WaitUntilDecoratorManager.wait_until no longer compares data.trigger with the timeout decorator", key="timeout tied to timeout decorator",
-              node=f4, rel="decorator.py")
+    f4u = "decorator.py::WaitUntilDecoratorManager.wait_until"
+    todec, other = ObjV("todec", "TimeTriggerDecorator"), ObjV("st", "StateTriggerDecorator")
+    fa = DictV([(Const("trigger_type"), Const("state")), (Const("var_name"), Const("d.e"))])
+    for label, trig, want in (("the timeout trigger fired", todec, DictV([(Const("trigger_type"), Const("timeout"))])), ("another trigger fired", other, fa)):
+        pol = FlowPolicy(program, may_raise_all=False, cancel=False)
+        heap = {"self._future": ObjV("data", "DispatchData"), "data.trigger": trig, "data.func_args": fa, "self.timeout_decorator": todec}
+        out = run_flow(program, f4u, pol, args={"self": ObjV("self", "WaitUntilDecoratorManager")}, heap=heap)
+        got = [c.env.get("$ret") if k == "return" else d for k, c, d in exits(out)]
+        ok = len(got) == 1 and isinstance(got[0], DictV) and dict(got[0].items) == dict(want.items)
+        ctx.check(ok, "R15.3", f4u, f"result when {label}", msg=f"WaitUntilDecoratorManager.wait_until when {label} returns {got!r}, specified {want!r}", key=f"wait result {label}",
+                  node=program.func(f4u), rel="decorator.py")
     timeout_table(ctx, program, "R15.3")
     ctx.rule("R15.10", "new subsystem: a time trigger without any future instant ends the wait with 'none' only when it is the wait's only condition "
              "(with a state/event/mqtt/webhook condition or a timeout the wait goes on)", floor=3)
